@@ -50,6 +50,7 @@ fn main() {
     let code = match id.as_str() {
         "C03" => run_property(props::c03_certs::C03, run_args),
         "C04" => run_property(props::c04_admission::C04, run_args),
+        "C05" => run_property(props::c05_own_votes::C05, run_args),
         "C06" => run_property(props::c06_safe_to::C06, run_args),
         "C07" => run_property(props::c07_parent_ready::C07, run_args),
         "C08" => run_property(props::c08_finality::C08, run_args),
